@@ -9,11 +9,13 @@ import (
 	"fmt"
 	"math/rand"
 	"os"
+	"os/exec"
 	"path"
 	"path/filepath"
 	"sort"
 	"strings"
 	"sync"
+	"syscall"
 	"time"
 )
 
@@ -281,6 +283,22 @@ func (r *Run) Finish(minNontrivial int) int {
 		ev["observed_nothing"] = true
 		code = 4
 	}
+	if pf := os.Getenv("VERIF_PART"); pf != "" {
+		// this process ran one part of a check on behalf of a parent process: hand the raw observations over
+		part := partFile{Evals: r.evals, Samples: r.samples, Counters: r.counters, Inconclusive: r.inconclusive, InconWhat: r.inconWhat,
+			Viols: r.viols, ViolKeys: r.violKeys, Observations: r.observations, ObsSamples: r.obsSamples}
+		for sg := range r.sigs {
+			part.Sigs = append(part.Sigs, sg)
+		}
+		b, _ := json.Marshal(part)
+		if err := os.WriteFile(pf, b, 0o644); err != nil {
+			fmt.Fprintf(os.Stderr, "cannot write part file: %v\n", err)
+			return 3
+		}
+		fmt.Fprintf(os.Stderr, "part %q: evaluations=%d distinct_nontrivial=%d violations=%d known=%d inconclusive=%d wall=%.1fs\n",
+			r.Only, r.evals, len(r.sigs), nviol, nknown, r.inconclusive, time.Since(r.start).Seconds())
+		return code
+	}
 	if r.Only == "" {
 		b, _ := json.MarshalIndent(ev, "", " ")
 		os.MkdirAll(filepath.Join(VerifDir, "evidence"), 0o755)
@@ -295,6 +313,153 @@ func (r *Run) Finish(minNontrivial int) int {
 }
 
 // ---------------------------------------------------------------------------
+// Parts: a check that loads many thousand mint instances splits itself over child
+// processes, because every loaded instance leaves a goroutine and a connection behind
+// (the mint never closes its migration handle) and the scheduler's lock-wait detection
+// costs time proportional to the number of goroutines in the process.
+
+type partFile struct {
+	Evals        int64
+	Sigs         []string
+	Samples      []any
+	Counters     map[string]int64
+	Inconclusive int64
+	InconWhat    map[string]int64
+	Viols        []Violation
+	ViolKeys     map[string]int
+	Observations map[string]int64
+	ObsSamples   map[string][]string
+}
+
+// IsPart reports whether this process runs one part on behalf of a parent.
+func IsPart() bool { return os.Getenv("VERIF_PART") != "" }
+
+// Splits reports whether the run should hand its parts to child processes
+// (not when replaying one case, not inside a part).
+func (r *Run) Splits() bool { return r.Only == "" && !IsPart() }
+
+// RunPart runs the cases whose signature starts with only in a child process
+// and merges what it observed into r. VIOLATION / KNOWN-FINDING lines are
+// printed by the child. A child that dies is a violation (fatal runtime error
+// in the code under monitoring); one that exceeds the watchdog is inconclusive.
+func (r *Run) RunPart(only string, watchdog time.Duration) {
+	exe, err := os.Executable()
+	if err != nil {
+		r.Inconclusive("part: cannot find own executable")
+		return
+	}
+	h := sha256.Sum256([]byte(only))
+	pf := filepath.Join(WorkDir(), "part-"+hex.EncodeToString(h[:6])+".json")
+	errPath := filepath.Join(WorkDir(), "part-"+hex.EncodeToString(h[:6])+".err")
+	errFile, _ := os.Create(errPath)
+	cmd := exec.Command(exe, "check", r.ID, r.Tier)
+	cmd.Env = append(os.Environ(), "VERIF_ONLY="+only, "VERIF_PART="+pf, fmt.Sprintf("VERIF_SEED=%d", r.Seed))
+	cmd.Stdout = os.Stdout
+	cmd.Stderr = errFile
+	if err := cmd.Start(); err != nil {
+		r.Inconclusive("part: cannot start child process")
+		return
+	}
+	done := make(chan error, 1)
+	go func() { done <- cmd.Wait() }()
+	timedOut := false
+	select {
+	case err = <-done:
+	case <-time.After(watchdog):
+		timedOut = true
+		cmd.Process.Signal(syscall.SIGQUIT)
+		select {
+		case err = <-done:
+		case <-time.After(20 * time.Second):
+			cmd.Process.Kill()
+			err = <-done
+		}
+	}
+	errFile.Close()
+	if eb, e := os.ReadFile(errPath); e == nil {
+		// pass the child's progress lines on; keep goroutine dumps out of the parent's log
+		for _, l := range strings.Split(string(eb), "\n") {
+			if strings.HasPrefix(l, r.ID+" ") || strings.HasPrefix(l, "part ") {
+				fmt.Fprintln(os.Stderr, l)
+			}
+		}
+	}
+	if timedOut {
+		r.Inconclusive("part watchdog expired: " + only)
+		return
+	}
+	code := 0
+	if err != nil {
+		code = -1
+		if ee, ok := err.(*exec.ExitError); ok {
+			code = ee.ExitCode()
+		}
+	}
+	if code != 0 && code != 1 && code != 4 {
+		dir := filepath.Join(VerifDir, "replay", r.ID)
+		os.MkdirAll(dir, 0o755)
+		dst := filepath.Join(dir, "process-death-"+hex.EncodeToString(h[:6])+".log")
+		if eb, e := os.ReadFile(errPath); e == nil {
+			if len(eb) > 1<<20 {
+				eb = eb[:1<<20]
+			}
+			os.WriteFile(dst, eb, 0o644)
+		}
+		r.mu.Lock()
+		key := "process-died;part=" + only
+		r.violKeys[key]++
+		r.viols = append(r.viols, Violation{Key: key, What: fmt.Sprintf("the process running this part died with exit code %d (fatal runtime error in the code under monitoring?)", code), Case: only, Replay: dst})
+		r.mu.Unlock()
+		fmt.Printf("VIOLATION property=%s replay=%s\n  key=%s\n", r.ID, dst, key)
+		return
+	}
+	b, e := os.ReadFile(pf)
+	if e != nil {
+		r.Inconclusive("part left no result: " + only)
+		return
+	}
+	var part partFile
+	if e := json.Unmarshal(b, &part); e != nil {
+		r.Inconclusive("part result unreadable: " + only)
+		return
+	}
+	os.Remove(pf)
+	os.Remove(errPath)
+	r.mu.Lock()
+	defer r.mu.Unlock()
+	r.evals += part.Evals
+	for _, sg := range part.Sigs {
+		r.sigs[sg] = struct{}{}
+	}
+	for _, sm := range part.Samples {
+		if len(r.samples) < 24 {
+			r.samples = append(r.samples, sm)
+		}
+	}
+	for k, v := range part.Counters {
+		r.counters[k] += v
+	}
+	r.inconclusive += part.Inconclusive
+	for k, v := range part.InconWhat {
+		r.inconWhat[k] += v
+	}
+	for _, v := range part.Viols {
+		if _, seen := r.violKeys[v.Key]; !seen {
+			r.viols = append(r.viols, v)
+		}
+		r.violKeys[v.Key] += part.ViolKeys[v.Key]
+	}
+	for k, v := range part.Observations {
+		r.observations[k] += v
+	}
+	for k, v := range part.ObsSamples {
+		for _, x := range v {
+			if len(r.obsSamples[k]) < 3 {
+				r.obsSamples[k] = append(r.obsSamples[k], x)
+			}
+		}
+	}
+}
 
 var workOnce sync.Once
 var workDir string
